@@ -206,7 +206,12 @@ func (t *Term) MaskErrorContext() *Term {
 		return t
 	}
 	if t.Is("error", 2) {
-		return C("error", t.A[0].MaskErrorContext(), A("*"))
+		// the context of a built-in's error is implementation defined: an unbound variable here, a predicate indicator
+		// there. Anything else is what a program put there itself (throw(error(out_of_range, info(X, Max)))) and stays.
+		if ctx := t.A[1]; ctx.K == Var || ctx.Is("/", 2) || ctx.IsAtom("*") || ctx.IsAtom("root") {
+			return C("error", t.A[0].MaskErrorContext(), A("*"))
+		}
+		return C("error", t.A[0].MaskErrorContext(), t.A[1].MaskErrorContext())
 	}
 	args := make([]*Term, len(t.A))
 	for i, a := range t.A {
